@@ -84,6 +84,12 @@ def main():
             gen2 = cpp._generate_model_function_bodies("x/generated/formak/model.h", "generated", model, dict(cm), cfg)
             header2 = "\n".join(cpp.header_from_ast(generator=gen2))
             source2 = "\n".join(cpp.source_from_ast(generator=gen2))
+            # generator options away from what the other generations use: no namespace given (the command line's default), filtering
+            # off, another maximum step - whatever text the generator invents for an omitted option must not depend on the process
+            cfg3 = cpp.Config(common_subexpression_elimination=cse, innovation_filtering=None, max_dt_sec=0.25)
+            gen3 = cpp._generate_ekf_function_bodies("x/generated/formak/model.h", None, model, dict(pn), {a: dict(b) for a, b in sm.items()}, {a: dict(b) for a, b in sn.items()}, dict(cm), cfg3)
+            header3 = "\n".join(cpp.header_from_ast(generator=gen3))
+            source3 = "\n".join(cpp.source_from_ast(generator=gen3))
             pm = py.compile(model, calibration_map=dict(cm), config={"common_subexpression_elimination": cse})
             ekf = py.compile_ekf(model, dict(pn), {a: dict(b) for a, b in sm.items()}, {a: dict(b) for a, b in sn.items()}, calibration_map=dict(cm), config={"common_subexpression_elimination": cse})
     finally:
@@ -92,6 +98,8 @@ def main():
     out["source_sha256"] = hashlib.sha256(source.encode()).hexdigest()
     out["regenerated_header_sha256"] = hashlib.sha256(header_b.encode()).hexdigest()
     out["regenerated_source_sha256"] = hashlib.sha256(source_b.encode()).hexdigest()
+    out["no_namespace_header_sha256"] = hashlib.sha256(header3.encode()).hexdigest()
+    out["no_namespace_source_sha256"] = hashlib.sha256(source3.encode()).hexdigest()
     out["model_header_sha256"] = hashlib.sha256(header2.encode()).hexdigest()
     out["model_source_sha256"] = hashlib.sha256(source2.encode()).hexdigest()
     names = lambda xs: [str(x) for x in xs]
